@@ -393,7 +393,7 @@ func runRandCase(w *world, r *Rng, idx int, seed uint64, side *Sidecar) (terms [
 	for _, o := range recG.log {
 		rep.GethObs = append(rep.GethObs, o.String())
 	}
-	side.Case(idx, fmt.Sprint(rep.Ops, rep.EvmObs), true, rep)
+	side.Case(caseKey(idx), fmt.Sprint(rep.Ops, rep.EvmObs), true, rep)
 	return terms, ""
 }
 
